@@ -1,10 +1,10 @@
 package exec
 
 import (
-	"math/bits"
 	"fmt"
 	"go/token"
 	"go/types"
+	"math/bits"
 	"path"
 	"path/filepath"
 	"reflect"
@@ -26,79 +26,79 @@ import (
 const concretiseK = 3
 
 var nativeReg = map[string]any{
-	"strings.Replace":        strings.Replace,
-	"strings.Contains":       strings.Contains,
-	"strings.ContainsAny":    strings.ContainsAny,
-	"strings.ContainsRune":   strings.ContainsRune,
-	"strings.Index":          strings.Index,
-	"strings.IndexByte":      strings.IndexByte,
-	"strings.IndexRune":      strings.IndexRune,
-	"strings.IndexAny":       strings.IndexAny,
-	"strings.LastIndex":      strings.LastIndex,
-	"strings.LastIndexByte":  strings.LastIndexByte,
-	"strings.EqualFold":      strings.EqualFold,
-	"strings.Fields":         strings.Fields,
-	"strings.Repeat":         strings.Repeat,
-	"strings.SplitAfter":     strings.SplitAfter,
-	"strings.SplitAfterN":    strings.SplitAfterN,
-	"strings.Title":          strings.Title,
-	"strings.ToLower":        strings.ToLower,
-	"strings.ToUpper":        strings.ToUpper,
-	"strings.Trim":           strings.Trim,
-	"strings.TrimLeft":       strings.TrimLeft,
-	"strings.TrimRight":      strings.TrimRight,
-	"strings.TrimSpace":      strings.TrimSpace,
-	"strings.Compare":        strings.Compare,
-	"strings.Cut":            strings.Cut,
-	"strings.CutPrefix":      strings.CutPrefix,
-	"strings.CutSuffix":      strings.CutSuffix,
-	"strings.ToValidUTF8":    strings.ToValidUTF8,
-	"strconv.Itoa":           strconv.Itoa,
-	"strconv.Atoi":           strconv.Atoi,
-	"strconv.Quote":          strconv.Quote,
-	"strconv.Unquote":        strconv.Unquote,
-	"strconv.FormatInt":      strconv.FormatInt,
-	"strconv.FormatFloat":    strconv.FormatFloat,
-	"strconv.FormatBool":     strconv.FormatBool,
-	"strconv.ParseInt":       strconv.ParseInt,
-	"strconv.ParseUint":      strconv.ParseUint,
-	"strconv.ParseFloat":     strconv.ParseFloat,
-	"unicode.IsUpper":        unicode.IsUpper,
-	"unicode.IsLetter":       unicode.IsLetter,
-	"unicode.IsDigit":        unicode.IsDigit,
-	"unicode.IsNumber":       unicode.IsNumber,
-	"unicode.IsSpace":        unicode.IsSpace,
-	"unicode.IsPunct":        unicode.IsPunct,
-	"unicode.IsPrint":        unicode.IsPrint,
-	"unicode.IsControl":      unicode.IsControl,
-	"unicode.IsSymbol":       unicode.IsSymbol,
-	"unicode.IsTitle":        unicode.IsTitle,
-	"unicode.ToLower":        unicode.ToLower,
-	"unicode.ToUpper":        unicode.ToUpper,
+	"strings.Replace":                strings.Replace,
+	"strings.Contains":               strings.Contains,
+	"strings.ContainsAny":            strings.ContainsAny,
+	"strings.ContainsRune":           strings.ContainsRune,
+	"strings.Index":                  strings.Index,
+	"strings.IndexByte":              strings.IndexByte,
+	"strings.IndexRune":              strings.IndexRune,
+	"strings.IndexAny":               strings.IndexAny,
+	"strings.LastIndex":              strings.LastIndex,
+	"strings.LastIndexByte":          strings.LastIndexByte,
+	"strings.EqualFold":              strings.EqualFold,
+	"strings.Fields":                 strings.Fields,
+	"strings.Repeat":                 strings.Repeat,
+	"strings.SplitAfter":             strings.SplitAfter,
+	"strings.SplitAfterN":            strings.SplitAfterN,
+	"strings.Title":                  strings.Title,
+	"strings.ToLower":                strings.ToLower,
+	"strings.ToUpper":                strings.ToUpper,
+	"strings.Trim":                   strings.Trim,
+	"strings.TrimLeft":               strings.TrimLeft,
+	"strings.TrimRight":              strings.TrimRight,
+	"strings.TrimSpace":              strings.TrimSpace,
+	"strings.Compare":                strings.Compare,
+	"strings.Cut":                    strings.Cut,
+	"strings.CutPrefix":              strings.CutPrefix,
+	"strings.CutSuffix":              strings.CutSuffix,
+	"strings.ToValidUTF8":            strings.ToValidUTF8,
+	"strconv.Itoa":                   strconv.Itoa,
+	"strconv.Atoi":                   strconv.Atoi,
+	"strconv.Quote":                  strconv.Quote,
+	"strconv.Unquote":                strconv.Unquote,
+	"strconv.FormatInt":              strconv.FormatInt,
+	"strconv.FormatFloat":            strconv.FormatFloat,
+	"strconv.FormatBool":             strconv.FormatBool,
+	"strconv.ParseInt":               strconv.ParseInt,
+	"strconv.ParseUint":              strconv.ParseUint,
+	"strconv.ParseFloat":             strconv.ParseFloat,
+	"unicode.IsUpper":                unicode.IsUpper,
+	"unicode.IsLetter":               unicode.IsLetter,
+	"unicode.IsDigit":                unicode.IsDigit,
+	"unicode.IsNumber":               unicode.IsNumber,
+	"unicode.IsSpace":                unicode.IsSpace,
+	"unicode.IsPunct":                unicode.IsPunct,
+	"unicode.IsPrint":                unicode.IsPrint,
+	"unicode.IsControl":              unicode.IsControl,
+	"unicode.IsSymbol":               unicode.IsSymbol,
+	"unicode.IsTitle":                unicode.IsTitle,
+	"unicode.ToLower":                unicode.ToLower,
+	"unicode.ToUpper":                unicode.ToUpper,
 	"unicode/utf8.RuneCountInString": utf8.RuneCountInString,
 	"unicode/utf8.ValidString":       utf8.ValidString,
 	"unicode/utf8.RuneLen":           utf8.RuneLen,
-	"path/filepath.Clean":    filepath.Clean,
-	"path/filepath.IsAbs":    filepath.IsAbs,
-	"path/filepath.IsLocal":  filepath.IsLocal,
-	"path/filepath.Match":    filepath.Match,
-	"path/filepath.Split":    filepath.Split,
-	"path/filepath.ToSlash":  filepath.ToSlash,
-	"path/filepath.VolumeName": filepath.VolumeName,
-	"path.Base":              path.Base,
-	"path.Dir":               path.Dir,
-	"path.Ext":               path.Ext,
-	"path.Join":              path.Join,
-	"path.Clean":             path.Clean,
-	"math/bits.Len":            bits.Len,
-	"math/bits.Len64":          bits.Len64,
-	"math/bits.Len32":          bits.Len32,
-	"math/bits.TrailingZeros":  bits.TrailingZeros,
-	"math/bits.TrailingZeros64": bits.TrailingZeros64,
-	"math/bits.LeadingZeros":   bits.LeadingZeros,
-	"math/bits.LeadingZeros64": bits.LeadingZeros64,
-	"math/bits.OnesCount":      bits.OnesCount,
-	"math/bits.OnesCount64":    bits.OnesCount64,
+	"path/filepath.Clean":            filepath.Clean,
+	"path/filepath.IsAbs":            filepath.IsAbs,
+	"path/filepath.IsLocal":          filepath.IsLocal,
+	"path/filepath.Match":            filepath.Match,
+	"path/filepath.Split":            filepath.Split,
+	"path/filepath.ToSlash":          filepath.ToSlash,
+	"path/filepath.VolumeName":       filepath.VolumeName,
+	"path.Base":                      path.Base,
+	"path.Dir":                       path.Dir,
+	"path.Ext":                       path.Ext,
+	"path.Join":                      path.Join,
+	"path.Clean":                     path.Clean,
+	"math/bits.Len":                  bits.Len,
+	"math/bits.Len64":                bits.Len64,
+	"math/bits.Len32":                bits.Len32,
+	"math/bits.TrailingZeros":        bits.TrailingZeros,
+	"math/bits.TrailingZeros64":      bits.TrailingZeros64,
+	"math/bits.LeadingZeros":         bits.LeadingZeros,
+	"math/bits.LeadingZeros64":       bits.LeadingZeros64,
+	"math/bits.OnesCount":            bits.OnesCount,
+	"math/bits.OnesCount64":          bits.OnesCount64,
 }
 
 // concretise turns a symbolic scalar or string into a concrete value that is
